@@ -56,7 +56,7 @@ def main():
         patch = os.path.join(sd, "patch.diff")
         if demo:
             # demo on the clean tree
-            files = [f for f in glob.glob(os.path.join(sd, "*")) if os.path.basename(f) not in ("patch.diff", "meta.json", "result.json")]
+            files = [f for f in glob.glob(os.path.join(sd, "*")) if os.path.basename(f) not in ("patch.diff", "patch.orig.diff", "meta.json", "result.json", "history.json")]
             ddir = os.path.join(wt, (meta.get("demo_dir", ".").split() or ["."])[0])
             os.makedirs(ddir, exist_ok=True)
             for f in files:
